@@ -260,6 +260,7 @@ def clamp_rule(ck, mod, f, st, label):
     for a, b in zip(cuts, cuts[1:] + [1 << 64]):
         classes.append((a, b - 1))
     n = 0
+    coarse = []
     for lo, hi in classes:
         if lo > hi:
             continue
@@ -271,12 +272,18 @@ def clamp_rule(ck, mod, f, st, label):
                 got.append(getiv(I.ops[0], 32))
         rng.explore_intervals(f, {("a", pi): rng.Iv(lo, hi, 64)}, on_store)
         ok = bool(got) and all(1 <= g.lo and g.hi <= MAXLIM // 32 for g in got)
+        if not ok:
+            # an interval is an over-approximation: that it sticks out of [1, 32768] is no witness.  The witnesses are the concrete
+            # evaluations below (class boundaries, compared constants, wrap points); without one the image is not decided
+            coarse.append("limit in [%d,%s]: stored block count within %s" % (lo, "2^64-1" if hi == (1 << 64) - 1 else hi, got))
+            continue
         ck.ob(ok, "R-C16-CLAMP", f.name, "limit-image[%d..%s][%s]" % (lo, "2^64-1" if hi == (1 << 64) - 1 else hi, label),
               "for limit in [%d,%d] the stored block count lies in %s, within [1,32768]" % (lo, hi, got),
               "for limit in [%d,%d] the stored block count can be %s: outside [1, 32768] blocks (1 MiB maximum / 32-byte minimum not enforced)" % (lo, hi, got),
               where=where)
     # exact rounding at representatives
     reps = sorted({0, 1, 31, 32, 33, 63, 64, 65, 1023, 1024, 1025, MAXLIM - 1, MAXLIM, MAXLIM + 1, 1 << 32, (1 << 64) - 1, (1 << 64) - 31} | set(consts))
+    bad_reps = 0
     for r in reps:
         n += 1
         vals = []
@@ -291,6 +298,9 @@ def clamp_rule(ck, mod, f, st, label):
         ck.ob(vals == [want], "R-C16-CLAMP", f.name, "limit-value(%s)[%s]" % (r if r < 1 << 40 else hex(r), label),
               "limit %d -> %d blocks = ceil(min(limit, 1 MiB)/32), minimum 1" % (r, want),
               "limit %d -> stored %s blocks, expected %d (rounded up to a multiple of 32, min 32 bytes, max 1 MiB)" % (r, vals, want), where=where)
+        bad_reps += vals != [want]
+    if coarse and not bad_reps:
+        raise Broken("%s: the interval image of the stored limit is too coarse to bound it (%s) and no concrete evaluation is wrong: not decided" % (f.name, coarse[0]))
     return n
 
 
@@ -647,7 +657,7 @@ def run(ck, build):
     _, _, o2, i2 = census(sub, fx, "fixture")
     guard_rule(sub, fx, o2, i2, "fixture")
     got = {(v["function"], v["construct"].split("#")[0].split("[")[0].split("(")[0]) for v in sub.violations}
-    for want in [("tinyjambu_prng_generate", "guard-per-block"), ("tinyjambu_prng_feed", "counter-write:store"), ("tinyjambu_prng_set_reseed_limit", "limit-image")]:
+    for want in [("tinyjambu_prng_generate", "guard-per-block"), ("tinyjambu_prng_feed", "counter-write:store"), ("tinyjambu_prng_set_reseed_limit", "limit-value")]:
         ck.control("c16_bad.c:%s:%s" % want, want in got, "got %s" % sorted(got))
     ck.coverage_extra.update({"counter_writes": n_c, "limit_writes": n_l, "emission_sites": n,
                               "exhaustive": True, "exhaustive_over": "all writes to the two budget fields in the linked module; all emission sites of generate"})
